@@ -125,6 +125,13 @@ pub fn mutants(fam: Family, proto: Proto, t: &str, others: &[String]) -> Vec<Str
             }
         }
         Family::SuffixExt => {
+            // decorations a transport or a careless caller adds around the token
+            for pre in ["Bearer ", "bearer ", "\u{feff}", " ", "\n", "\"", "token="] {
+                out.push(format!("{}{}", pre, t));
+            }
+            for post in [" ", "\n", "\r\n", "\0", "\"", ";", ","] {
+                out.push(format!("{}{}", t, post));
+            }
             for &a in &alpha {
                 out.push(format!("{}{}", t, a as char));
                 for &b in &alpha {
